@@ -224,10 +224,13 @@ func (p *Program) MethodOpt(pkg, typ, name string) *ssa.Function {
 	if t == nil {
 		return nil
 	}
-	if f := p.Prog.LookupMethod(types.NewPointer(t.Type()), sp.Pkg, name); f != nil {
-		return f
+	// value receiver first: looking a value-receiver method up on *T yields a synthetic wrapper
+	for _, T := range []types.Type{t.Type(), types.NewPointer(t.Type())} {
+		if sel := p.Prog.MethodSets.MethodSet(T).Lookup(sp.Pkg, name); sel != nil {
+			return p.Prog.MethodValue(sel)
+		}
 	}
-	return p.Prog.LookupMethod(t.Type(), sp.Pkg, name)
+	return nil
 }
 
 func (p *Program) Named(pkg, typ string) *types.Named {
